@@ -1,7 +1,7 @@
-{
- "C01": {
-  "package": "./roaring",
-  "harnesses": [
+# Harness registry: property -> package, harnesses with per-tier bounds.
+# Edited by hand; read by check.py and tools/mkmanifest.py.
+INDEX = {
+ "C01": {"package": "./roaring", "harnesses": [
    {"name": "VerifH01RunCountRange", "quick": {"bounds": {"runs": 2}}, "thorough": {"bounds": {"runs": 3}}},
    {"name": "VerifH01ArrayCountRange", "quick": {"bounds": {"array": 3}}, "thorough": {"bounds": {"array": 5}}},
    {"name": "VerifH01BitmapCountRange", "common": {"max_depth": 2000}, "quick": {"bounds": {"words": 1, "bases": 2}}, "thorough": {"bounds": {"words": 2, "bases": 3}}},
@@ -15,16 +15,27 @@
    {"name": "VerifH01Optimize", "quick": {"bounds": {"array": 3, "runs": 2, "words": 1, "bases": 2, "wordmask6": 1}}},
    {"name": "VerifH01Clone", "quick": {"bounds": {"array": 3, "runs": 2, "words": 1, "bases": 2}}},
    {"name": "VerifH01Shift", "quick": {"bounds": {"array": 3, "runs": 2, "words": 1, "bases": 2, "wordmask6": 1}}},
-   {"name": "VerifH01Convert", "common": {"max_depth": 2000}, "quick": {"bounds": {"array": 2, "runs": 2, "words": 1, "bases": 2, "wordmask6": 1, "runlen": 3}}}
-  ]
- },
- "C06": {
-  "package": "./roaring",
-  "harnesses": [
+   {"name": "VerifH01Convert", "common": {"max_depth": 2000}, "quick": {"bounds": {"array": 2, "runs": 2, "words": 1, "bases": 2, "wordmask6": 1, "runlen": 3}}},
+ ]},
+ "C06": {"package": "./roaring", "harnesses": [
    {"name": "VerifH06UnmarshalBinary", "common": {"max_depth": 2000}, "quick": {"bounds": {"len": 12}}, "thorough": {"bounds": {"len": 20}}},
    {"name": "VerifH06UnmarshalPilosa", "common": {"max_depth": 2000}, "quick": {"bounds": {"len": 20}}, "thorough": {"bounds": {"len": 32}}},
    {"name": "VerifH06ImportRoaringBits", "common": {"max_depth": 2000}, "quick": {"bounds": {"len": 12}}, "thorough": {"bounds": {"len": 20}}},
-   {"name": "VerifH06OpUnmarshal", "common": {"max_depth": 2000}, "quick": {"bounds": {"len": 22}}, "thorough": {"bounds": {"len": 30}}}
-  ]
- }
+   {"name": "VerifH06OpUnmarshal", "common": {"max_depth": 2000}, "quick": {"bounds": {"len": 22}}, "thorough": {"bounds": {"len": 30}}},
+ ]},
+ "C07": {"package": ".", "harnesses": [
+   {"name": "VerifH07History", "common": {"max_depth": 2000}, "quick": {"bounds": {"steps": 2, "ops": 9, "rows": 2, "colhis": 1, "caches": 1}}, "thorough": {"bounds": {"steps": 2, "ops": 9, "rows": 3, "colhis": 2, "caches": 3}}},
+ ]},
+ "C10": {"package": ".", "harnesses": [
+   {"name": "VerifH10Checksums", "common": {"max_depth": 2000}, "quick": {"bounds": {"ops": 9, "rows": 3, "colhis": 1, "caches": 1}}, "thorough": {"bounds": {"ops": 9, "rows": 3, "colhis": 2, "caches": 3}}},
+ ]},
+ "C17": {"package": ".", "harnesses": [
+   {"name": "VerifH17MinReducer", "quick": {"bounds": {"partials": 3}}, "thorough": {"bounds": {"partials": 4}}},
+   {"name": "VerifH17MaxReducer", "quick": {"bounds": {"partials": 3}}, "thorough": {"bounds": {"partials": 4}}},
+   {"name": "VerifH17SumReducer", "quick": {"bounds": {"partials": 3}}},
+ ]},
+ "C20": {"package": ".", "harnesses": [
+   {"name": "VerifH20Owners", "common": {"max_depth": 2000}, "quick": {"bounds": {"nodes": 3, "replicas": 4}}, "thorough": {"bounds": {"nodes": 4, "replicas": 5}}},
+   {"name": "VerifH20OwnsShard", "common": {"max_depth": 2000}, "quick": {"bounds": {"nodes": 3, "replicas": 4}}},
+ ]},
 }
